@@ -1,4 +1,237 @@
 /-
-  C16 — puzzle definitions.  Property theorems only (filled in as proofs land).
+  Property C16 — puzzle definitions: GAP text reader/printer, cube, Hungarian rings, globe.
+  Final statements only; proofs are in CvProofs/Gap.lean, CvProofs/Puzzles.lean, CvProofs/Cube.lean,
+  CvProofs/CubeInstances.lean.
+  (Agreement of the models `Cv.Gap.parseGap`, `Cv.Puzzles.*` with the real code on every shipped file and on
+  parameter ranges is established by compare_gap.py / compare_puzzles.py.)
 -/
-import CvModel.Perm
+import CvProofs.Gap
+import CvProofs.Puzzles
+import CvProofs.Cube
+import CvProofs.CubeInstances
+namespace Cv.C16
+open Cv.Perm Cv.Gap Cv.Puzzles
+
+/-! ### cycle notation -/
+
+/-- cycle notation (`toCycles`, fixed points omitted) is a right inverse of `permutation_from_cycles` -/
+theorem fromCycles_toCycles (n : Nat) (p : List Nat) (hp : Cv.Perm.IsPermOf n p) :
+    Cv.Perm.fromCycles n ((toCycles p).map (·.map Int.ofNat)) 0 = some p :=
+  Cv.Gap.fromCycles_toCycles n p hp
+
+example : Cv.Perm.IsPermOf 6 [1, 2, 0, 3, 5, 4] ∧ toCycles [1, 2, 0, 3, 5, 4] = [[0, 1, 2], [4, 5]] := by decide
+
+/-! ### GAP text: print, then read -/
+
+/-- ROUND TRIP.  For generators `gens` (named one-line permutations of `n` points, names made of letters /
+digits / underscores without an inner `M_`, pairwise distinct) and identical-piece classes `identical`
+(pairwise disjoint lists of 1-based points not exceeding the largest moved point), reading the printed text
+gives: the same names in the same order; every permutation restricted to the points up to the largest moved
+one (`m = maxMoved`, all the reader can know); a central state of length `m` with colours `< m` in which two
+points have the same colour EXACTLY when they are equal or declared identical.
+The decimal lexing lemma is available in core (`Nat.ofDigitChars_ten_toDigits`); there is no extra hypothesis.
+`0 < m` is necessary: see `parse_print_identity`. -/
+theorem parse_print (gens : List (String × List Nat)) (n : Nat)
+    (hperm : ∀ g ∈ gens, Cv.Perm.IsPermOf n g.2)
+    (hnames : ∀ g ∈ gens, NameOk g.1.toList) (hdist : (gens.map (·.1)).Nodup)
+    (identical : List (List Nat)) (hid : IpOkNat (maxMoved (gens.map (·.2))) identical)
+    (hm : 0 < maxMoved (gens.map (·.2))) :
+    ∃ cs, parseGap (printGap gens identical) =
+        some (gens.map fun g => (g.1, g.2.take (maxMoved (gens.map (·.2)))), cs) ∧
+      cs.length = maxMoved (gens.map (·.2)) ∧
+      (∀ i, i < maxMoved (gens.map (·.2)) → cs.getD i 0 < maxMoved (gens.map (·.2))) ∧
+      ∀ i j, i < maxMoved (gens.map (·.2)) → j < maxMoved (gens.map (·.2)) →
+        (cs.getD i 0 = cs.getD j 0 ↔ SameClsNat identical i j) :=
+  Cv.Gap.parse_print gens n hperm hnames hdist identical hid hm
+
+/-- non-vacuity: a concrete instance of all hypotheses, its printed text and what the reader returns -/
+example :
+    (∀ g ∈ [("a_1", [1, 2, 0, 3, 5, 4]), ("b", [0, 1, 2, 3, 4, 5])], Cv.Perm.IsPermOf 6 g.2) ∧
+    NameOk "a_1".toList ∧ NameOk "b".toList ∧
+    maxMoved [[1, 2, 0, 3, 5, 4], [0, 1, 2, 3, 4, 5]] = 6 ∧
+    printGap [("a_1", [1, 2, 0, 3, 5, 4]), ("b", [0, 1, 2, 3, 4, 5])] [[1, 2], [4]] =
+      "M_a_1:=(1,2,3)(5,6);\nM_b:=;\nGen:=[\nM_a_1,M_b\n];\nip:=[[1,2],[4]];\n" ∧
+    parseGap "M_a_1:=(1,2,3)(5,6);\nM_b:=;\nGen:=[\nM_a_1,M_b\n];\nip:=[[1,2],[4]];\n" =
+      some ([("a_1", [1, 2, 0, 3, 5, 4]), ("b", [0, 1, 2, 3, 4, 5])], [0, 0, 1, 2, 3, 4]) := by
+  refine ⟨by decide, ⟨by decide, by decide⟩, ⟨by decide, by decide⟩, by decide, by decide, by decide⟩
+example : IpOkNat 6 [[1, 2], [4]] := ⟨by decide, by decide⟩
+
+/-- the hypothesis `0 < maxMoved` is needed: if no generator moves a point the real reader raises
+(`max()` of an empty sequence) -/
+theorem parse_print_identity (gens : List (String × List Nat)) (n : Nat)
+    (hperm : ∀ g ∈ gens, Cv.Perm.IsPermOf n g.2) (hnames : ∀ g ∈ gens, NameOk g.1.toList)
+    (identical : List (List Nat)) (hm : maxMoved (gens.map (·.2)) = 0) :
+    parseGap (printGap gens identical) = none :=
+  Cv.Gap.parse_print_identity gens n hperm hnames identical hm
+
+example : parseGap (printGap [("b", [0, 1, 2])] []) = none := by decide
+
+/-- the name hypotheses are needed.  An inner `M_` is deleted by the reader (`key.replace("M_", "")`): -/
+example : parseGap (printGap [("M_a", [1, 0])] []) = some ([("a", [1, 0])], [0, 1]) := by decide
+/-- … and with a repeated name the LAST definition wins for both entries: -/
+example : parseGap (printGap [("a", [1, 0, 2]), ("a", [0, 2, 1])] []) =
+    some ([("a", [0, 2, 1]), ("a", [0, 2, 1])], [0, 1, 2]) := by decide
+/-- … points beyond the largest moved one are lost (the reader cannot know them): -/
+example : parseGap (printGap [("a", [1, 0, 2, 3])] []) = some ([("a", [1, 0])], [0, 1]) := by decide
+/-- what the reader silently drops: a cycle containing a blank, the continuation line of a wrapped definition,
+a definition whose key does not START with `M_`: -/
+example : parseGap "M_a:=(1, 2)(3,4);\n" = some ([("a", [0, 1, 3, 2])], [0, 1, 2, 3]) := by decide
+example : parseGap "M_a:=(1,2)\n(3,4);\n" = some ([("a", [1, 0])], [0, 1]) := by decide
+example : parseGap " M_b:=(3,4);\nM_a:=(1,2);\n" = some ([("a", [1, 0])], [0, 1]) := by decide
+
+/-! ### GAP text: any well-formed file (in particular every shipped file) -/
+
+/-- MEANING of the reader's answer on a WELL-FORMED file (`Acc.wellFormed`, a decidable condition on what the line
+loop found: distinct names, at least one cycle, pairwise disjoint cycles of points ≥ 1 in every definition, pairwise
+disjoint `ip` classes of points in `1..n`; `compare_gap.py` evaluates it on all 92 shipped files: it holds for all).
+The answer consists of the names found by the line loop, in order, each with the permutation of `n` points
+(`n` = largest point written in a cycle) whose cycles are exactly the written ones (`DefMeans`: `p[c_i - 1] = c_{i+1} - 1`
+along every written cycle, every other point fixed), and of a central state of length `n` which is the identity when
+there is no `ip`, and otherwise colours two points equally iff they are equal or lie in a common class. -/
+theorem parse_wellFormed (text : String) (acc : Acc) (hscan : scanChars text.toList = some acc)
+    (hwf : acc.wellFormed = true) :
+    ∃ ps cs, parseGap text = some ((acc.defs.map fun d => String.ofList d.1).zip ps, cs) ∧
+      ps.length = acc.defs.length ∧
+      (∀ k (hk : k < acc.defs.length) (hk' : k < ps.length),
+        DefMeans (((acc.defs.map (·.2)).flatten.flatten).foldl max 0) (acc.defs[k]).2 ps[k]) ∧
+      cs.length = ((acc.defs.map (·.2)).flatten.flatten).foldl max 0 ∧
+      (acc.ip = none → cs = List.range (((acc.defs.map (·.2)).flatten.flatten).foldl max 0)) ∧
+      (∀ ipv, acc.ip = some ipv → ∀ i j, i < cs.length → j < cs.length →
+        (cs.getD i 0 = cs.getD j 0 ↔ SameCls ipv i j)) :=
+  Cv.Gap.parse_wellFormed text acc hscan hwf
+
+/-- non-vacuity: a text in the shipped layout (comments, `M_M_` names, `Gen` block, `ip`, trailing comments); what
+the line loop finds, that it is well-formed, and the reader's answer -/
+example :
+    (scanChars "# PuzzleGeometry\nM_M_F:=(1,2,3)(4,5);\nM_M_B:=(2,6);\nGen:=[\nM_M_F,M_M_B\n];\nip:=[[1],[4,5]];\n# Size(Group(Gen));\n".toList).map
+        (fun a => (a.defs, a.ip)) =
+      some ([("F".toList, [[1, 2, 3], [4, 5]]), ("B".toList, [[2, 6]])], some [[1], [4, 5]]) ∧
+    wellFormedText "# PuzzleGeometry\nM_M_F:=(1,2,3)(4,5);\nM_M_B:=(2,6);\nGen:=[\nM_M_F,M_M_B\n];\nip:=[[1],[4,5]];\n# Size(Group(Gen));\n" = true ∧
+    parseGap "# PuzzleGeometry\nM_M_F:=(1,2,3)(4,5);\nM_M_B:=(2,6);\nGen:=[\nM_M_F,M_M_B\n];\nip:=[[1],[4,5]];\n# Size(Group(Gen));\n" =
+      some ([("F", [1, 2, 0, 4, 3, 5]), ("B", [0, 5, 2, 3, 4, 1])], [0, 1, 2, 3, 3, 4]) := by
+  refine ⟨by decide, by decide, by decide⟩
+
+/-! ### central state from identical pieces -/
+
+/-- for pairwise disjoint classes of points in `1..n`, the central state has length `n`, colours `< n`, and
+two points get the same colour iff they are equal or in a common class -/
+theorem centralFromIp_spec (n : Nat) (ip : List (List Int)) (hok : IpOk n ip) :
+    ∃ cs, centralFromIp n ip = some cs ∧ cs.length = n ∧ (∀ i, i < n → cs.getD i 0 < n) ∧
+      ∀ i j, i < n → j < n → (cs.getD i 0 = cs.getD j 0 ↔ SameCls ip i j) :=
+  Cv.Gap.centralFromIp_spec n ip hok
+
+example : IpOk 5 [[2, 5], [3]] ∧ centralFromIp 5 [[2, 5], [3]] = some [0, 1, 2, 3, 1] :=
+  ⟨⟨by decide, by decide⟩, by decide⟩
+/-- without disjointness the "iff" fails (a point in two classes): points 0 and 1 are in a common class but get
+different colours -/
+example : centralFromIp 3 [[1, 2], [2, 3]] = some [0, 1, 1] := by decide
+
+/-! ### globe (all parameters) -/
+
+theorem globe_inverse_closed (a b : Nat) (_ha : 1 ≤ a) (hb : 1 ≤ b) :
+    isInverseClosedSet (globe a b).gens = true := globe_inverse_closed' a b hb
+
+/-- every generator is a permutation of the `2 (a+1) b` cells; there are `2 (a+1) + 2 b` of them, as many as
+names; the central state is the identity; `r<k>_inv` is the inverse of `r<k>`, which is a single cycle of length
+`2 b` along row `k`; every flip is an involution -/
+theorem globe_valid (a b : Nat) (hb : 1 ≤ b) :
+    (∀ g ∈ (globe a b).gens, Cv.Perm.IsPermOf (globe a b).n g) ∧
+    (globe a b).gens.length = 2 * (a + 1) + 2 * b ∧ (globe a b).names.length = (globe a b).gens.length ∧
+    (globe a b).central = List.range (globe a b).n ∧
+    (∀ k, k < a + 1 → Cv.Perm.inverse (globeRow a b k) = globeRowInv a b k ∧
+      Cv.Perm.inverse (globeRowInv a b k) = globeRow a b k ∧
+      isSingleCycle (globeRow a b k) (2 * b) = true ∧
+      CycleOn (globeRow a b k) (List.range' (k * (2 * b)) (2 * b))) ∧
+    (∀ c, c < 2 * b → Cv.Perm.inverse (globeFlip a b c) = globeFlip a b c ∧
+      Cv.Perm.compose (globeFlip a b c) (globeFlip a b c) = Cv.Perm.identity (2 * (a + 1) * b)) :=
+  ⟨globe_gens_perm a b hb, (globe_counts a b).1, (globe_counts a b).2.1, (globe_counts a b).2.2,
+    fun k hk => ⟨(globeRow_perm a b k hk hb).2, (globeRowInv_perm a b k hk hb).2,
+      (globeRow_cycle a b k hk hb).2.2, (globeRow_cycle a b k hk hb).1⟩,
+    fun c hc => ⟨(globeFlip_perm a b c hc hb).2, globeFlip_involution a b c hc hb⟩⟩
+
+example : (globe 1 2).gens =
+    [[1, 2, 3, 0, 4, 5, 6, 7], [3, 0, 1, 2, 4, 5, 6, 7], [0, 1, 2, 3, 5, 6, 7, 4], [0, 1, 2, 3, 7, 4, 5, 6],
+     [5, 4, 2, 3, 1, 0, 6, 7], [0, 6, 5, 3, 4, 2, 1, 7], [0, 1, 7, 6, 4, 5, 3, 2], [7, 1, 2, 4, 3, 5, 6, 0]] := by
+  decide
+
+/-! ### Hungarian rings (all admissible parameters) -/
+
+/-- for all parameters accepted by `hungarian_rings_generators` (`RingsAdm`: sizes > 1, indices inside the
+rings, both indices zero or both positive): the two rotations are permutations, single cycles of lengths `ls`
+and `rs` (along the explicit rings), they share exactly the intersection points `0` (and `li`), the second
+intersection is `li` steps from the first along the left ring and the first `ri` steps after the second along
+the right ring; the generator set is inverse-closed and consists of permutations -/
+theorem hungarianRings_cycles (ls li rs ri : Nat) (h : RingsAdm ls li rs ri) :
+    (let n := ringsSize ls li rs ri
+     let L := ringForth n (leftRing ls)
+     let R := ringForth n (rightRing ls li rs ri)
+     Cv.Perm.IsPermOf n L ∧ Cv.Perm.IsPermOf n R ∧
+     CycleOn L (leftRing ls) ∧ CycleOn R (rightRing ls li rs ri) ∧
+     (∀ k, k < n → k ∉ leftRing ls → L.getD k 0 = k) ∧
+     (∀ k, k < n → k ∉ rightRing ls li rs ri → R.getD k 0 = k) ∧
+     isSingleCycle L ls = true ∧ isSingleCycle R rs = true ∧
+     sharesExactly L R (ringsCommon li ri) = true ∧
+     iterate L 0 li = li ∧ (0 < li → iterate R li ri = 0)) ∧
+    isInverseClosedSet (hungarianRings ls li rs ri).gens = true ∧
+    (∀ g ∈ (hungarianRings ls li rs ri).gens, Cv.Perm.IsPermOf (hungarianRings ls li rs ri).n g) ∧
+    (hungarianRings ls li rs ri).gens.take 2 =
+      [ringForth (ringsSize ls li rs ri) (leftRing ls),
+       ringForth (ringsSize ls li rs ri) (rightRing ls li rs ri)] :=
+  ⟨hungarianRings_structure ls li rs ri h, (hungarianRings_inverse_closed ls li rs ri h).1,
+    (hungarianRings_inverse_closed ls li rs ri h).2, rfl⟩
+
+example : RingsAdm 5 2 5 2 ∧ ringsAdmissible 5 2 5 2 = true ∧
+    (hungarianRings 5 2 5 2).gens = [[1, 2, 3, 4, 0, 5, 6, 7], [5, 1, 7, 3, 4, 6, 2, 0],
+      [4, 0, 1, 2, 3, 5, 6, 7], [7, 1, 6, 3, 4, 0, 5, 2]] ∧
+    rightRing 5 2 5 2 = [0, 5, 6, 2, 7] := by decide
+/-- one intersection, and a ring of two beads (its rotation is an involution: no separate `-L`) -/
+example : RingsAdm 2 0 3 0 ∧ (hungarianRings 2 0 3 0).names = ["L", "R", "-R"] := by decide
+
+/-! ### cube (all sizes `n`, all layers) -/
+
+/-- every layer turn `f<j> / r<j> / d<j>` (`j < n`) of the closed-form cube is a permutation of the `6 n²` sticker
+positions, has order exactly 4, moves exactly the stickers of its layer — all of `cubeLayer n ax j` except, for an
+outer layer of an odd cube, the centre sticker of the turning face, which rotates in place (`cubeLayerMoved`) — and
+commutes with every turn of the same axis -/
+theorem cube_structure (n : Nat) (ax : Axis) (j : Nat) (hj : j < n) :
+    Cv.Perm.IsPermOf (6 * n * n) (cubeMove n ax j) ∧
+    order4 (cubeMove n ax j) = true ∧
+    supportOf (cubeMove n ax j) = cubeLayerMoved n ax j ∧
+    (∀ i, i < 6 * n * n → ((cubeMove n ax j).getD i 0 ≠ i ↔
+      (inLayer n ax j (stickerOf n i) = true ∧ isAxisCentre n ax (stickerOf n i) = false))) ∧
+    (∀ j', commute (cubeMove n ax j) (cubeMove n ax j') = true) :=
+  ⟨(cubeMove_perm n ax j).1, cubeMove_order4 n ax j hj, cubeMove_support n ax j,
+    fun i hi => cubeMove_moved_iff n ax j i hi, fun j' => cubeMove_commute n ax j j'⟩
+
+/-- the QSTM, QTM and HTM generator sets of the cube are inverse-closed, for every `n` -/
+theorem cube_inverse_closed (n : Nat) :
+    isInverseClosedSet (cubeQstm n).gens = true ∧ isInverseClosedSet (cubeQtm n).gens = true ∧
+    isInverseClosedSet (cubeHtm n).gens = true :=
+  ⟨cubeQstm_inverse_closed n, cubeQtm_inverse_closed n, cubeHtm_inverse_closed n⟩
+
+/-- the combined decidable check holds for every `n` (it is also kernel-EVALUATED for n = 2, 3 in
+CvProofs/CubeInstances.lean, an independent cross-check of the proof) -/
+theorem cube_check (n : Nat) : cubeCheck n = true := cubeCheck_all n
+
+/-- non-vacuity: the `f0` turn of the 2-cube, its layer, and the centre that stays in place on the 3-cube -/
+example : cubeMove 2 Axis.f 0 =
+      [0, 1, 19, 17, 6, 4, 7, 5, 2, 9, 3, 11, 12, 13, 14, 15, 16, 20, 18, 21, 10, 8, 22, 23] ∧
+    cubeLayer 2 Axis.f 0 = [2, 3, 4, 5, 6, 7, 8, 10, 17, 19, 20, 21] ∧
+    cubeLayerMoved 2 Axis.f 0 = cubeLayer 2 Axis.f 0 ∧
+    (cubeLayer 3 Axis.f 0).length = 21 ∧ (cubeLayerMoved 3 Axis.f 0).length = 20 ∧
+    (cubeLayer 3 Axis.f 0).filter (fun i => !(cubeLayerMoved 3 Axis.f 0).contains i) = [13] := by decide
+
+/-! ### cube: the closed form is the real generator's output (n = 2, 3, 4, kernel-checked literal data) -/
+
+/-- the closed-form layer turns ARE the lists produced by the real `generate_cube_permutations_oneline(n)`
+(data pasted by script from the real library into CvProofs/CubeInstances.lean), names included -/
+theorem cube_matches_library_2_3_4 :
+    (cubeMoves 2).map (·.1) = pyCubeNames2 ∧ (cubeMoves 2).map (·.2) = pyCubePerms2 ∧
+    (cubeMoves 3).map (·.1) = pyCubeNames3 ∧ (cubeMoves 3).map (·.2) = pyCubePerms3 ∧
+    (cubeMoves 4).map (·.1) = pyCubeNames4 ∧ (cubeMoves 4).map (·.2) = pyCubePerms4 :=
+  ⟨cubeMoves2_names, cubeMoves2_perms, cubeMoves3_names, cubeMoves3_perms, cubeMoves4_names, cubeMoves4_perms⟩
+
+/-- kernel evaluation of the combined check (independent of the ∀-n proof) -/
+theorem cube_check_evaluated_2_3 : cubeCheck 2 = true ∧ cubeCheck 3 = true := ⟨cubeCheck2, cubeCheck3⟩
+
+end Cv.C16
